@@ -151,7 +151,7 @@ def bundle(ctx, tag):
         # the same string as a root-local definition, designating something else
         if isinstance(root.get("definitions"), dict) and r.random() < 0.4:
             for n in list(root["definitions"])[:1]:
-                doc.setdefault("definitions", {})[n] = g.schema(tag, 1)
+                doc.setdefault("definitions", {})[n] = d3_no_required(tag, g.schema(tag, 1))
     # the SAME reference string ("#/definitions/x") used by the root and by an external document, where it
     # designates something else (each document's own definitions): a cache keyed by the string alone confuses them
     local = []
